@@ -1156,6 +1156,9 @@ pub fn show_outcome(o: &Outcome) -> Value {
         Outcome::Ok(ResolvedRecord::NonAuthoritative { rrs, soa_rr }) => {
             json!({"NonAuthoritative": {"rrs": rrs.iter().map(show_rr).collect::<Vec<_>>(), "soa": soa_rr.as_ref().map(show_rr)}})
         }
+        Outcome::Ok(ResolvedRecord::Referral { ns_rrs }) => {
+            json!({"Referral": {"ns_rrs": ns_rrs.iter().map(show_rr).collect::<Vec<_>>()}})
+        }
         Outcome::Err(e) => json!({"Err": format!("{e}")}),
         Outcome::Panic(m) => json!({"Panic": m}),
     }
